@@ -12,7 +12,7 @@ UNARY_FUNCS = ["abs", "negative", "positive", "square", "sign", "floor", "ceil",
                "bitwise_invert", "logical_not"]
 LAYOUT = ["ndx.reshape(a, [-1])", "ndx.reshape(a, [-1], copy=True)", "ndx.flip(a)", "ndx.roll(a, 1)", "ndx.expand_dims(a, 0)", "ndx.permute_dims(a, list(range(a.ndim))[::-1])",
           "ndx.broadcast_to(a, nda.shape(a))", "ndx.squeeze(ndx.expand_dims(a, 0), 0)", "a[...]", "a[::1]", "ndx.asarray(a, copy=True)", "a.copy()",
-          "ndx.astype(a, a.dtype)", "ndx.astype(a, ndx.float64)", "ndx.astype(a, ndx.nfloat64)", "ndx.astype(a, ndx.nint64)", "ndx.concat([a, a])", "ndx.stack([a, a])", "ndx.take(a, ndx.asarray(np.array([0])), axis=0)",
+          "nda.shape(a)", "nda.shape(a) + 0", "ndx.astype(a, a.dtype)", "ndx.astype(a, ndx.float64)", "ndx.astype(a, ndx.nfloat64)", "ndx.astype(a, ndx.nint64)", "ndx.concat([a, a])", "ndx.stack([a, a])", "ndx.take(a, ndx.asarray(np.array([0])), axis=0)",
           "ndx.where(a == a, a, a)", "ndx.sort(a)", "ndx.cumulative_sum(a, axis=0)", "ndx.sum(a, axis=0, keepdims=True)", "ndx.max(a, axis=0, keepdims=True)",
           "ndx.broadcast_arrays(a, a)[0]", "ndx.unique_values(a)", "ndx.clip(a, min=0, max=2)", "ndx.tril(ndx.reshape(a, [1, -1]))", "a + 0", "a * 1", "ndx.add(a, a)",
           "ndx.logical_and(a > 0, True)", "ndx.logical_or(a > 0, False)",
